@@ -496,7 +496,7 @@ func TestPoolStateMachine(t *testing.T) {
 	needNode(t)
 	defer dropNode()
 	pool := boot.Pool()
-	stats.Check(t, 1200, 6000, func(t *rapid.T) {
+	stats.Check(t, 2500, 8000, func(t *rapid.T) {
 		m := &machine{t: t, pool: pool, salt: atomic.AddUint64(&caseSeq, 1),
 			byHash: map[common.Hash]*types.Transaction{}, pending: map[common.Hash]bool{},
 			executed: map[common.Hash]common.Hash{}, returned: map[common.Hash]bool{}}
@@ -857,7 +857,7 @@ func (tr *tree) describe() string {
 
 func TestReorgHistories(t *testing.T) {
 	dropNode()
-	stats.Check(t, 24, 80, func(t *rapid.T) {
+	stats.Check(t, 30, 80, func(t *rapid.T) {
 		tr := buildTree(t)
 		if len(tr.blocks) < 2 {
 			t.Skip("tree too small")
@@ -969,7 +969,7 @@ func TestConcurrentMixes(t *testing.T) {
 	needNode(t)
 	defer dropNode()
 	pool := boot.Pool()
-	stats.Check(t, 40, 200, func(t *rapid.T) {
+	stats.Check(t, 200, 1000, func(t *rapid.T) {
 		salt := atomic.AddUint64(&caseSeq, 1)
 		defer func() { _ = safely(func() { drainPool(pool) }) }()
 		if n := pool.TxNum(); n != 0 {
@@ -995,7 +995,7 @@ func TestConcurrentMixes(t *testing.T) {
 			if rapid.IntRange(0, 4).Draw(t, "hasReqId") == 0 {
 				req = uint64(rapid.IntRange(1, 40).Draw(t, "reqId"))
 			}
-			if rapid.IntRange(0, 3).Draw(t, "gate") == 0 {
+			if rapid.IntRange(0, 5).Draw(t, "gate") == 0 {
 				gate = uint64(rapid.IntRange(1, 1000).Draw(t, "gateNonce"))
 				gates++
 			}
@@ -1372,7 +1372,7 @@ func TestProbeGateBatch(t *testing.T) {
 		"data race on the goleveldb Batch reported by the race detector"
 	for _, l := range strings.Split(out, "\n") {
 		if strings.HasPrefix(l, "C17-CHILD") {
-			what += " [" + strings.TrimSpace(l) + "]"
+			t.Log(strings.TrimSpace(l)) // scheduler dependent, kept out of the KNOWN-FINDING line
 		}
 	}
 	stats.Probe(t, findingGateBatch, "C17", raced, what)
